@@ -37,6 +37,17 @@ CHECKS = {
               "(GMP, PYCRYPTODOME_DISABLE_GMP=1, forced native) whose transcripts are diffed line by line.  Counters prove both variants of each pair executed."),
         note="Trusted: nothing beyond equality of transcripts; requires a CPU with AES-NI and PCLMULQDQ (else inconclusive). Held only on generated inputs.",
         ref="DESIGN.md §4 C16"),
+    "C17": dict(
+        technique="sanitizer monitor: AddressSanitizer+UBSan(memory) build of the C sources plus mprotect guard pages around caller buffers, driven by a length/alignment/aliasing/lifecycle sweep",
+        text=("All 42 extension modules are rebuilt from the working tree with -fsanitize=address and the memory-related UBSan checks and loaded into the stock "
+              "interpreter (LD_PRELOAD, PYTHONMALLOC=malloc).  A sweep drives every public entry point that reaches native code (each cipher x mode incl. AEADs and "
+              "KW/KWP, stream ciphers, every hash/XOF/MAC, Poly1305, GHASH both variants, strxor, scrypt, bcrypt, PKCS#1 decoders, modexp, all EC operations on nine "
+              "curves, mixed-curve operands, cpuid) with every data length 0..1100 plus 4095..4097 and 65535..65537, bytes/bytearray/unaligned memoryview/guard-page "
+              "buffers (PROT_NONE page directly after or before the buffer), returned / output= / in-place output, and random create/copy/use/del/gc programs. "
+              "Any sanitizer report with a library frame, any fatal signal, any guard-page fault is a violation tied to the logged operation; /proc/self/maps proves "
+              "which modules were loaded in sanitised children."),
+        note="Trusted: ASan/UBSan run-times of gcc 12; red-zone tools miss non-adjacent and intra-object overflows and reuse after quarantine; libgmp/libffi/CPython are not instrumented; held only on the executed paths.",
+        ref="DESIGN.md §4 C17"),
     "C18": dict(
         technique="runtime monitor: exhaustive entropy-tape enumeration (pre-image counting) + bounds invariant at a hook + boundary tapes on consumers",
         text=("The first-draw level of the entropy-tape tree of every sampler (Integer.random_range on all three back-ends, StrongRandom.randrange/randint/"
